@@ -681,7 +681,12 @@ class URL:
             if dest.path.startswith('/'):   # absolute path
                 new_path_parts = list(dest.path_parts)
             else:  # relative path
-                new_path_parts = list(self.path_parts[:-1]) \
+                base_parts = self.path_parts
+                if self.host and not self.path:
+                    # RFC 3986 5.2.3: an empty base path under an
+                    # authority merges as "/"
+                    base_parts = ('', '')
+                new_path_parts = list(base_parts[:-1]) \
                                + list(dest.path_parts)
         else:
             new_path_parts = list(self.path_parts)
